@@ -302,6 +302,21 @@ def nwuParseGo : List (List MR) → List MR → List MR → List MR
 
 def nwuParse (items : List (List MR)) : List MR := nwuParseGo items [] []
 
+/-- repaired variant of the filter: a candidate is also dropped when an accepted result contains it. -/
+def bAddSym (acc : List MR) (m : MR) : Bool :=
+  !(acc.any fun x => (decide (m.start ≤ x.start) && decide (m.stop ≥ x.stop)) ||
+    (decide (x.start ≤ m.start) && decide (x.stop ≥ m.stop)))
+
+def nwuAddSym (acc : List MR) (m : MR) : List MR := if bAddSym acc m then acc ++ [m] else acc
+
+def nwuParseGoSym : List (List MR) → List MR → List MR → List MR
+  | [], _, acc => acc
+  | item :: rest, prs, acc =>
+    let prs' := prs ++ item
+    nwuParseGoSym rest prs' (prs'.foldl nwuAddSym acc)
+
+def nwuParseSym (items : List (List MR)) : List MR := nwuParseGoSym items [] []
+
 /-! ## Modifier tokens: `try_merge_modifier_token`, `add_mod` suffix, `BaseMergedParser.parse` push / pop -/
 
 /-- span + text of an `ExtractResult` / `DateTimeParseResult` with Python ints. -/
